@@ -73,6 +73,10 @@ func funcKey(fn *ssa.Function) string {
 
 // CompareSSA compares the float arithmetic of internal/fp with GOROOT's strconv — the very package the analysed
 // program links against (it is in the import graph of the library, so its SSA is already built).
+// NonNegField, when set, tells the co-execution which fields of the port's structures are never negative (proved by
+// the caller as an inductive invariant over every store to the field).
+var NonNegField func(fa *ssa.FieldAddr) bool
+
 func CompareSSA(w *core.World, resolve func(name string) *ssa.Function) (*SSAReport, error) {
 	ref := w.Prog.ImportedPackage("strconv")
 	if ref == nil {
@@ -91,6 +95,7 @@ func CompareSSA(w *core.World, resolve func(name string) *ssa.Function) (*SSARep
 		return ok && n.Obj().Name() == "floatInfo" && n.Obj().Pkg() != nil && n.Obj().Pkg().Path() == "strconv"
 	}
 	cfg := &coexec.Config{
+		NonNegField: NonNegField,
 		Callee: func(a *ssa.Function) *ssa.Function {
 			if a.Pkg != fp {
 				return nil
